@@ -34,6 +34,119 @@ def char_lits(fn):
     return [n["char"] for n in F.walk(fn.get("body")) if n.get("k") == "lit" and "char" in n]
 
 
+class _TraceUnknown(Exception):
+    pass
+
+
+def token_trace(db, fn):
+    """the sequence of delimiter characters and element accesses a vector / dim stream function goes through, in evaluation
+    order, as a list of 1-character strings and ("E", index) entries. Calls are followed, not pattern-matched:
+    algorithm::loop over int_range_count<N> runs the instantiation of the generic lambda for Index = 0 .. N-1 in order;
+    a call of a library function defined in the analysed units (if_not_last_index) is replaced by its instantiated body with
+    the function-object parameter bound to the argument; a call of a (named or bound) lambda by that lambda's body;
+    `if constexpr` takes the branch its constant condition selects. Any other branching raises _TraceUnknown."""
+    def lam_of(u, owner, n, env):
+        n = T.unwrap(u, n)
+        for _ in range(4):
+            if n is None:
+                return None
+            if n.get("k") == "lambda":
+                return n
+            if n.get("k") in ("construct",) and len(n.get("args", [])) == 1:
+                n = T.unwrap(u, n["args"][0])
+                continue
+            if n.get("k") in ("cast", "icast") and n.get("e") is not None:
+                n = T.unwrap(u, n["e"])
+                continue
+            if n.get("k") == "ref" and n.get("id") in env:
+                return env[n["id"]]
+            if n.get("k") == "ref" and n.get("dk") == "local":
+                inits = [v for v in F.walk(owner.get("body"), into_lambdas=True) if v.get("k") == "var" and v.get("id") == n.get("id") and v.get("init") is not None]
+                if len(inits) != 1:
+                    return None
+                n = T.unwrap(u, inits[0]["init"])
+                continue
+            return None
+        return None
+
+    def go(u, owner, n, env, out, depth):
+        if n is None:
+            return
+        if depth > 12:
+            raise _TraceUnknown("call depth")
+        if isinstance(n, list):
+            for x in n:
+                go(u, owner, x, env, out, depth)
+            return
+        k = n.get("k")
+        if k == "lit" and "char" in n:
+            out.append(chr(n["char"]))
+            return
+        if k == "lambda":
+            return     # a lambda expression by itself emits nothing; its body counts where it is called
+        if k == "if":
+            c = (n.get("cond") or {}).get("c")
+            if c is None:
+                raise _TraceUnknown("run-time branch at %s" % u.loc(n["loc"]))
+            go(u, owner, n.get("then") if str(c) not in ("0", "false") else n.get("else"), env, out, depth)
+            return
+        if k in ("for", "while", "do", "range_for", "switch", "try", "cond"):
+            raise _TraceUnknown("%s statement at %s" % (k, u.loc(n["loc"])))
+        if k == "call":
+            qn = T.callee_qn(u, n) or ""
+            if qn == "fcppt::math::detail::checked_access":
+                d = T.callee_decl(u, n) or {}
+                f2 = u.fn_by_id.get(d.get("id"))
+                ta = (f2 or {}).get("targs") or d.get("targs") or ["?"]
+                out.append(("E", str(ta[0]).rstrip("uUlL")))
+                return
+            if qn == "fcppt::algorithm::loop" and len(n.get("args", [])) == 2:
+                lam = lam_of(u, owner, n["args"][1], env)
+                if lam is None:
+                    raise _TraceUnknown("loop body is not a visible lambda at %s" % u.loc(n["loc"]))
+                ops = lam.get("ops", [])
+                try:
+                    ops = sorted(ops, key=lambda o: int(str((o.get("targs") or ["x"])[0]).rstrip("uUlL")))
+                except ValueError:
+                    raise _TraceUnknown("loop body instantiations without an index at %s" % u.loc(n["loc"]))
+                idx = [int(str(o["targs"][0]).rstrip("uUlL")) for o in ops]
+                if idx != list(range(len(idx))) or not idx:
+                    raise _TraceUnknown("loop body instantiated for indices %s at %s" % (idx, u.loc(n["loc"])))
+                for o in ops:
+                    go(u, owner, o.get("body"), env, out, depth + 1)
+                return
+            recv = T.unwrap(u, n.get("recv")) if n.get("recv") is not None else None
+            if n.get("opcall") == "()" and recv is not None:
+                lam = lam_of(u, owner, recv, env)
+                if lam is not None and len(lam.get("ops", [])) == 1:
+                    go(u, owner, n.get("args", []), env, out, depth)
+                    go(u, owner, lam["ops"][0].get("body"), env, out, depth + 1)
+                    return
+                raise _TraceUnknown("call of an unknown function object at %s" % u.loc(n["loc"]))
+            d = T.callee_decl(u, n) or {}
+            f2 = u.fn_by_id.get(d.get("id")) if d.get("id") is not None else None
+            if f2 is not None and f2.get("body") is not None and qn.startswith("fcppt::math::detail::"):
+                env2 = dict(env)
+                for (p, a) in zip(f2.get("params", []), n.get("args", [])):
+                    la = lam_of(u, owner, a, env)
+                    if la is not None:
+                        env2[p["id"]] = la
+                    else:
+                        go(u, owner, a, env, out, depth)
+                go(u, f2, f2.get("body"), env2, out, depth + 1)
+                return
+            go(u, owner, n.get("recv"), env, out, depth)
+            go(u, owner, n.get("args", []), env, out, depth)
+            return
+        for key in F.CHILD_KEYS:
+            v = n.get(key)
+            if v is not None and not isinstance(v, (str, int, bool)):
+                go(u, owner, v, env, out, depth)
+    out = []
+    go(fn["_unit"], fn, fn.get("body"), {}, out, 0)
+    return out
+
+
 def main(rep, tier, only):
     db = load.load(tier, lib=True, drivers=["drv_integers"], lib_filter=lambda f: f.startswith("libs/core/"))
     rep.extra.update(db.stats())
@@ -163,8 +276,8 @@ def main(rep, tier, only):
         why = "swap does not call reverse_mem exactly once"
         if len(calls) == 1:
             n = calls[0][0]
-            a0 = T.show(T.norm(u, n["args"][0]))
-            sz = [m for m in F.walk(n["args"][1]) if m.get("k") == "sizeof"]
+            a0 = T.show(T.snorm(u, fn, n["args"][0]))      # a named byte pointer stands for its initialiser
+            sz = [m for m in T.walk_through_locals(u, fn, n["args"][1]) if m.get("k") == "sizeof"]
             ty = (fn.get("targs") or ["?"])[0]
             rets = [T.show(T.norm(u, r["e"])) for r in F.walk(fn.get("body")) if r.get("k") == "return"]
             ok = "r_a0" in a0 and sz and u.ty(sz[0].get("arg_t")) == ty and rets == ["r_a0"] and fn["params"][0]["ref"] == "val"
@@ -353,22 +466,39 @@ def main(rep, tier, only):
         rep.broken("C15: one_dimensional_output / input not instantiated")
     else:
         o, i = outs[0], ins[0]
-        lo, li = char_lits(o), char_lits(i)
         uo, ui = o["_unit"], i["_unit"]
-
-        def elems(u, fn):
-            return [q for (_, _, q) in L.calls_in(u, fn.get("body")) if q in ("fcppt::math::detail::checked_access", "fcppt::math::detail::if_not_last_index")]
         why = None
-        if lo != li or not lo:
-            why = "token sequences differ: output writes %s, input expects %s" % ([chr(c) for c in lo], [chr(c) for c in li])
-        elif [chr(c) for c in lo[:1]] != ["("] or chr(lo[-1]) != ")":
-            why = "token sequence is not '(' ... ')': %s" % [chr(c) for c in lo]
-        elif sorted(set(elems(uo, o))) != sorted(set(elems(ui, i))) or len(set(elems(uo, o))) != 2:
-            why = "element access / separator guard differ between output and input"
-        (rep.fail if why else rep.ok)("VEC-IO", "one_dimensional_output/input", F.primary_site(o), F.describe(o)[:140], **({"why": why} if why else {"how": "tokens %s" % [chr(c) for c in sorted(set(lo), key=lo.index)]}))
+        try:
+            to, ti = token_trace(db, o), token_trace(db, i)
+        except _TraceUnknown as e:
+            rep.broken("C15 VEC-IO: the token sequence of one_dimensional_output / input cannot be followed: %s" % e)
+            to = ti = None
+        if to is not None:
+            n_el = len([x for x in to if isinstance(x, tuple)])
+            spec = ["("]
+            for k in range(n_el):
+                spec.append(("E", str(k)))
+                if k != n_el - 1:
+                    spec.append(",")
+            spec.append(")")
+            sh = lambda tr: " ".join(x if isinstance(x, str) else "e%s" % x[1] for x in tr)
+            if to != ti:
+                why = "token sequences differ: output writes %s, input expects %s" % (sh(to), sh(ti))
+            elif n_el < 2 or to != spec:
+                why = "token sequence is not '(' e0 ',' e1 ... ')': %s" % sh(to)
+            (rep.fail if why else rep.ok)("VEC-IO", "one_dimensional_output/input", F.primary_site(o), F.describe(o)[:140], **({"why": why} if why else {"how": "trace %s" % sh(to)}))
         exp = [n for (n, d, q) in L.calls_in(ui, i.get("body")) if q == "fcppt::io::expect"]
-        ok = len(exp) >= 3
-        (rep.ok if ok else rep.fail)("VEC-IO", "one_dimensional_input|expect", F.primary_site(i), F.describe(i)[:140], **({"how": "%d expect() calls" % len(exp)} if ok else {"why": "input does not check all three delimiters with io::expect"}))
+        # every delimiter literal of the input side is the argument of an io::expect call (however many times the code spells it)
+        under = set()
+        for n in exp:
+            for m in F.walk(n.get("args", [])):
+                if m.get("k") == "lit" and "char" in m:
+                    under.add(id(m))
+        lits = [m for m in F.walk(i.get("body")) if m.get("k") == "lit" and "char" in m]
+        loose = [m for m in lits if id(m) not in under]
+        ok = bool(lits) and not loose and {chr(m["char"]) for m in lits} == {"(", ",", ")"}
+        (rep.ok if ok else rep.fail)("VEC-IO", "one_dimensional_input|expect", F.primary_site(i), F.describe(i)[:140],
+                                     **({"how": "all %d delimiter literals are io::expect arguments" % len(lits)} if ok else {"why": "input does not check all three delimiters with io::expect (%d of %d delimiter literals are not expect arguments)" % (len(loose), len(lits))}))
     # ---------------- ENUM-IO: stream output keeps the LENGTH of the name (a string_view is not NUL-terminated)
     seen = set()
     for fn in db.fns("fcppt::enum_::output"):
@@ -379,7 +509,21 @@ def main(rep, tier, only):
         rets = [r for r in F.walk(fn.get("body"), into_lambdas=False) if r.get("k") == "return"]
         t = T.show(T.snorm(u, fn, rets[0]["e"])) if rets else ""
         raw = [n for n in F.walk(fn.get("body")) if n.get("k") == "call" and (T.callee_qn(u, n) or "").endswith("basic_string_view::data")]
-        ok = "to_string(" in t and not raw
+        # what is inserted into the stream derives from to_string(value), directly or through named locals
+        # (`std::string name{to_string(v)}; stream << widen_string(std::move(name)); return stream;`)
+        derived = set()
+        for v in F.walk(fn.get("body"), into_lambdas=False):
+            if v.get("k") == "var" and v.get("init") is not None:
+                if any((m.get("k") == "call" and (T.callee_qn(u, m) or "") == "fcppt::enum_::to_string") or (m.get("k") == "ref" and m.get("id") in derived) for m in F.walk(v["init"])):
+                    derived.add(v["id"])
+        ins_ok = False
+        for n in F.walk(fn.get("body"), into_lambdas=False):
+            if n.get("k") == "call" and n.get("opcall") == "<<":
+                ops = ([n["recv"]] if n.get("recv") is not None else []) + list(n.get("args", []))
+                if len(ops) == 2 and T.show(T.snorm(u, fn, ops[0])).startswith("r_a0"):
+                    if any((m.get("k") == "call" and (T.callee_qn(u, m) or "") == "fcppt::enum_::to_string") or (m.get("k") == "ref" and m.get("id") in derived) for m in F.walk(ops[1])):
+                        ins_ok = True
+        ok = ins_ok and not raw and len(rets) == 1 and (t == "r_a0" or t.startswith("operator<<(r_a0") or t.startswith("(r_a0 <<") or "to_string(" in t)
         (rep.ok if ok else rep.fail)("ENUM", "enum_::output", F.primary_site(fn), F.describe(fn)[:140],
                                      **({"how": "streams the whole name returned by to_string"} if ok else
                                         {"why": "output streams %s: a raw data() pointer drops the view's length (names need not be NUL-terminated), so output and input no longer agree" % t}))
